@@ -161,6 +161,32 @@ def c09(tier):
                 note="melda.rs commit / meld / refresh / reload, datastorage.rs pack from MIR; harness-side FaultAdapter implements melda::adapter::Adapter")
 
 
+def c11(tier):
+    combos = [(3, 0), (3, 1)] if tier == "quick" else [(3, 0), (3, 1), (6, 1), (12, 0)]
+    jobs = [Job("h_c11::content_addressed", c, dict(S2, digest_len=64), budget_s=3000, validate=30) for c in combos]
+    jobs.append(Job("h_pack::pack_roundtrip", (1, 1), {"hash_order": "two"}, budget_s=3000, validate=20))
+    return dict(jobs=jobs, bounds={"history": "a: commit (metadata with non-ASCII text, a symbolic printable char, nested containers, escapes, empty object, 13-digit integer), commit with empty-object metadata; "
+                                              "b melds + refreshes, commits, a melds back; then unstage / refresh / reload / reads",
+                                   "checked after every step on both storages": "every key = digest(bytes) (+ index = 1 + max parent index for blocks); key set only grows; bytes of existing keys unchanged; "
+                                                                                  "shared keys byte-identical; replicas with the same history hold identical items",
+                                   "combos [k, symbolic values]": [list(c) for c in combos]},
+                assumptions=[a for a in S2_ASSUME if "abstracted to 16" not in a] + ["floats in commit metadata are outside the claim (number formatting not modelled)",
+                                                                                      "memory backend only"],
+                note="melda.rs commit / meld / load_raw_delta / Delta::to_json_string / DeltaId, datastorage.rs pack, memoryadapter.rs from MIR")
+
+
+def c17(tier):
+    combos = [(1, 0), (2, 0), (2, 1)] if tier == "quick" else [(1, 0), (2, 0), (2, 1), (3, 0)]
+    jobs = [Job("h_c11::adapter_contract", c, {"hash_order": "fixed"}, budget_s=3000, validate=40) for c in combos]
+    return dict(jobs=jobs, bounds={"operations": "1..3 writes (the later ones may hit an existing key) with symbolic keys <word{1,2}>[.delta|.pack|.delta.delta] and symbolic contents of 0..3 printable bytes; whole reads; "
+                                                 "one ranged read with symbolic offset 0..4 and length 1..4; read of a missing key; listing by '', '.delta', '.pack'",
+                                   "backends": "MemoryAdapter directly and through the Arc<RwLock<Box<dyn Adapter>>> wrapper (adapter.rs)",
+                                   "combos [writes, through wrapper]": [list(c) for c in combos]},
+                assumptions=["only the memory backend and the DynAdapter wrapper are covered: the directory, SQLite and Solid backends and the Deflate / Brotli codecs are behind file-system I/O, FFI, "
+                             "network or compression loops that this technique cannot encode (stated N/A part)"],
+                note="memoryadapter.rs + adapter.rs (impl Adapter for DynAdapter) from MIR; reference model in the harness")
+
+
 def c12(tier):
     combos = [(10, 0), (2, 1)] if tier == "quick" else [(10, 0), (2, 1), (5, 1)]
     jobs = [Job("h_c12::maintenance", c, dict(S2), budget_s=3000, validate=30) for c in combos]
@@ -213,4 +239,4 @@ def c10(tier):
                 note="melda.rs reload / fetch_raw_delta / load_raw_delta / check_delta, datastorage.rs try_load_pack / read_raw_value from MIR")
 
 
-PROPS = {"C02": c02, "C09": c09, "C04": c04, "C12": c12, "C13": c13, "C14": c14, "C07": c07, "C10": c10, "C08": c08, "C03": c03, "C06": c06, "C16": c16, "C19": c19, "C05": c05, "C15": c15}
+PROPS = {"C02": c02, "C11": c11, "C17": c17, "C09": c09, "C04": c04, "C12": c12, "C13": c13, "C14": c14, "C07": c07, "C10": c10, "C08": c08, "C03": c03, "C06": c06, "C16": c16, "C19": c19, "C05": c05, "C15": c15}
